@@ -230,6 +230,11 @@ def update_nonnegative_accumulate(current_value, new_value):
     if isinstance(updated_value, np.ndarray):
         updated_value[updated_value < 0] = 0
         return updated_value
+    elif isinstance(getattr(updated_value, 'magnitude', None), np.ndarray):
+        # a quantity with an array magnitude
+        magnitude = updated_value.magnitude
+        magnitude[magnitude < 0] = 0
+        return updated_value
     elif updated_value >= 0:
         return updated_value
     else:
